@@ -39,12 +39,13 @@ WORDS = ["Zoo", "Monkey", "Pen", "Color", "Server", "Tail", "Kind", "Stamp", "Bo
 ACRONYMS = ["HTTP", "ID", "GPS", "IO"]
 SINGLE = ["Q", "X", "K"]
 FWORDS = ["age", "fur", "color", "seen", "at", "x", "y", "speed", "kind", "tail", "left", "right", "id", "state", "level", "count"]
-PREFIXES = ["lib_", "my_prefix_", "qz_", "bpx_"]
+PREFIXES = ["lib_", "my_prefix_", "qz_", "bpx_", "QV_"]
 
 
 def pascal_prefix(p: str) -> str:
     """documented: `my_prefix_` -> `MyPrefix`"""
-    return "".join(w[:1].upper() + w[1:] for w in p.split("_") if w)
+    # an ALL-CAPS part is capitalised like any other word: `GS_` -> `Gs` (the converter's documented behaviour)
+    return "".join(w[:1].upper() + (w[1:].lower() if w[1:] and w[1:].isupper() else w[1:]) for w in p.split("_") if w)
 
 
 def upper_snake(name: str) -> str:
@@ -575,6 +576,9 @@ def make_program(rng: random.Random, allow_ext: bool) -> Optional[G.Schema]:
         if s.proto in protos:
             s.proto += "_" + "abcdefgh"[k % 8]
         protos.add(s.proto)
+    if rng.random() < 0.3:
+        # the output is named after the FILE (base name up to the last extension), not after the proto
+        main.filename = main.proto + rng.choice([".v2", ".rev.b", "-x", "_file"])
     return main
 
 
